@@ -67,12 +67,17 @@ where C: ChannelProducer<'static, Counted, D> + ChannelCommon<Counted, D> + Chan
 }
 
 macro_rules! uni { ($t:ident, $case:expr) => {{
+    // (C15: the channel's sequence counters start at `origin` - a channel that has already transported that many events)
+    reactive_mutiny::verif::set_sequence_origin($case.get("origin", 0) as u32);
     let chan = $t::<Counted, 4, 1>::new("c");
+    reactive_mutiny::verif::set_sequence_origin(0);
     let (stream, _id) = chan.create_stream();
     run_generic($case, chan, vec![stream])
 }}; }
 macro_rules! multi { ($t:ident, $case:expr) => {{
+    reactive_mutiny::verif::set_sequence_origin($case.get("origin", 0) as u32);
     let chan = $t::<Counted, 4, 2>::new("c");
+    reactive_mutiny::verif::set_sequence_origin(0);
     let k = $case.get("k", 1);
     let streams = (0..k).map(|_| chan.create_stream_for_new_events().0).collect();
     run_generic($case, chan, streams)
